@@ -10,10 +10,13 @@ Driver for C15.  `geomv_c15 judge` reads lines
   SPEC <class> <why>    the implementation's answers violate the specification:
                         a panic; `rAB ≠ rBA` (symmetry); the answer demanded by the statement for
                         the transformation named in the tag (`T`/`F`); or, when the pair is
-                        `separated` (matching unambiguous), an answer different from `specSim`;
+                        `separated`/`blockSeparated` (matching unambiguous up to exchanging
+                        indistinguishable members), an answer different from `specSim`;
                         an operand modified by a call, an answer that changes when the call is
                         repeated, or answers that depend on how the operands are laid out in memory
-                        (Similar is a function of the VALUES of its operands).
+                        (Similar is a function of the VALUES of its operands); an answer that
+                        changes when other goroutines call Similar at the same time on their own
+                        operands (lines tagged `conc-…`, see harness/cmd/c15/conc.go).
 -/
 namespace GeomV.C15
 open GeomV
@@ -60,13 +63,18 @@ def judgeLine (line : String) : String :=
             s!"SPEC {cls} operand-modified {r1} {r2}{lay}"
           else if r1.startsWith "unstable" || r2.startsWith "unstable" then
             s!"SPEC {cls} answer-depends-on-earlier-calls {r1} {r2}{lay}"
+          else if r1.startsWith "racy" || r2.startsWith "racy" then
+            s!"SPEC {cls} answer-changes-under-concurrent-callers {r1} {r2}{lay}"
           else if r1 != "T" && r1 != "F" then s!"SPEC {cls} receiver-A-faulted {r1}{lay}"
           else if r2 != "T" && r2 != "F" then s!"SPEC {cls} receiver-B-faulted {r2}{lay}"
           else if r1 != r2 then s!"SPEC {cls} asymmetric A.Similar(B)={r1} B.Similar(A)={r2}{lay}"
           else if expect != "?" && r1 != expect then
             s!"SPEC {cls} statement-says-{expect}-for-{tagName} got={r1}{lay}"
           else
-            let sepd := Spec.separated ga e gb && Spec.separated gb e ga
+            -- matching unambiguous: no member has two candidates (`separated`), or — repeated members —
+            -- any two members of one side have the same candidates or none in common (`blockSeparated`)
+            let sepd := (Spec.separated ga e gb && Spec.separated gb e ga) ||
+              (Spec.blockSeparated ga e gb && Spec.blockSeparated gb e ga)
             let s1 := Spec.specSim ga e gb
             let s2 := Spec.specSim gb e ga
             if s1 != s2 then s!"BAD spec-not-symmetric {cls}"
